@@ -9,10 +9,13 @@
 (* read the slice header, write element len - under the lock of the sink;  *)
 (* WeakSharedLockAppend is the design without mutual exclusion between     *)
 (* appenders (a shared lock, or none): TLC must then find a lost value.    *)
+(* WeakKeepCap > 0 is the design that stops growing the kept values at     *)
+(* that many and recycles the backing array (the oldest kept value is      *)
+(* shifted out): a value whose Record returned is then no longer held.     *)
 (* Each goroutine t records the durations <<t, 1>>, <<t, 2>>, ...          *)
 (***************************************************************************)
 EXTENDS Integers, Sequences, FiniteSets
-CONSTANTS Threads, NRec, WeakSharedLockAppend
+CONSTANTS Threads, NRec, WeakSharedLockAppend, WeakKeepCap
 VARIABLES vals, pc, k, hdr, lock, returned
 vars == <<vals, pc, k, hdr, lock, returned>>
 
@@ -27,7 +30,9 @@ ReadHeader(t) == /\ pc[t] = "read" /\ hdr' = [hdr EXCEPT ![t] = Len(vals)]
                  /\ pc' = [pc EXCEPT ![t] = "write"] /\ UNCHANGED <<vals, k, lock, returned>>
 (* append with the header read before: element hdr+1 is written, the new length is hdr+1 *)
 WriteElem(t) == /\ pc[t] = "write"
-                /\ vals' = [i \in 1..(hdr[t] + 1) |-> IF i <= hdr[t] THEN vals[i] ELSE <<t, k[t]>>]
+                /\ vals' = IF WeakKeepCap > 0 /\ hdr[t] >= WeakKeepCap
+                           THEN [i \in 1..hdr[t] |-> IF i < hdr[t] THEN vals[i + 1] ELSE <<t, k[t]>>]
+                           ELSE [i \in 1..(hdr[t] + 1) |-> IF i <= hdr[t] THEN vals[i] ELSE <<t, k[t]>>]
                 /\ pc' = [pc EXCEPT ![t] = "release"] /\ UNCHANGED <<k, hdr, lock, returned>>
 Release(t) == /\ pc[t] = "release" /\ lock' = lock \ {t}
               /\ returned' = returned \cup {<<t, k[t]>>} /\ k' = [k EXCEPT ![t] = @ + 1]
